@@ -27,3 +27,31 @@ Theorem C13_refuted_same_consumer_id :
   length (active (grun false [ESub 1 5; ESub 1 5; EExit 0; ESub 2 1]%N)) = 2.
 Proof. exact by_consumer_id_refuted. Qed.
 Print Assumptions C13_refuted_same_consumer_id.
+
+(* The race the tests never schedule: the replaced subscription's loop returns (or its client
+   goes away) AFTER the replacement -- the current subscriber and the slot are left alone. *)
+Theorem C13_late_cleanup_keeps_current : forall st x i, slot_inv st -> slot st = Some x -> i <> sb_id x ->
+  let st' := fst (gstep true st (EExit i)) in
+  slot st' = Some x /\ active st' = active st /\
+  active (fst (gstep true st (EClose i))) = active st /\ slot (fst (gstep true st (EClose i))) = Some x.
+Proof. exact exit_of_other_keeps_current. Qed.
+Print Assumptions C13_late_cleanup_keeps_current.
+
+(* With no current subscriber any epoch is accepted, and the newcomer is the only active one. *)
+Theorem C13_empty_slot_accepts : forall st c e, slot_inv st -> slot st = None ->
+  let st' := fst (gstep true st (ESub c e)) in
+  snd (gstep true st (ESub c e)) = true /\ active st' = [nxt st] /\ slot st' = Some (mkSub (nxt st) c e).
+Proof. exact empty_slot_accepts. Qed.
+Print Assumptions C13_empty_slot_accepts.
+
+(* While a partition has a group subscriber, the group epoch it carries never goes back. *)
+Theorem C13_slot_epoch_monotone : forall ident st ev x y,
+  slot st = Some x -> slot (fst (gstep ident st ev)) = Some y -> (sb_ep x <= sb_ep y)%N.
+Proof. exact slot_epoch_monotone. Qed.
+Print Assumptions C13_slot_epoch_monotone.
+
+(* After every history the active subscription is the one the slot (GetGroupConsumer) names. *)
+Theorem C13_active_is_the_registered_one : forall evs i, In i (active (grun true evs)) ->
+  exists x, slot (grun true evs) = Some x /\ sb_id x = i.
+Proof. exact active_is_slot. Qed.
+Print Assumptions C13_active_is_the_registered_one.
